@@ -10,12 +10,20 @@
     pointer stays nil while the clone allocates.  `Go.goodB` is a checker for it.
   * `Iso.refFree st d a` (JSV/Proofs/IsoValid.lean): the unfolding of `a` ends within depth `d` and no schema object of
     it has a `$ref` or a `$dynamicRef` (decidable).
+  * `Go.RIso.*` (JSV/Proofs/ResIso*.lean): Resolve commutes with a renaming of schema node ids (`resolve_rel`);
+    `NoDocs env`: the resolution is self-contained (no Loader, or a Loader that hands out no document);
+    `specOf st rs reMatch`: the Spec environment read off a store and the tables of a `Resolved`.
+  Validation behaviour of the clone: `clone_validates_same` (trees with references, both sides resolved),
+  `clone_validate_same` (the evaluator), `clone_resolves_iff`; the older `*_partial` statements are for reference-free
+  trees under ARBITRARY tables.
 -/
 import JSV.Proofs.MshNode
 import JSV.Proofs.MshFacts
 import JSV.Proofs.MshCloneOk
 import JSV.Model.Unmarshal
 import JSV.Proofs.IsoValid
+import JSV.Proofs.ResIsoClone
+import JSV.Proofs.ResIsoDocs
 namespace JSV.C20
 open JSV Go
 
@@ -168,10 +176,10 @@ theorem clone_total_of_checkStructure (st : Store) (root : NodeId) (cfuel : Nat)
     Proof: `Go.cloneFuel_sim` gives the simulation `Go.Sim` between the two subtrees (node by node `Go.NodeRel`: a
     shallow copy whose schema-valued fields have the same shape and related members); it is an `Iso.EnvSim`, and
     validity is invariant under a renaming of node ids (`Iso.evalFuel_sim`).
-    PARTIAL: trees that contain `$ref` / `$dynamicRef` are not covered.  Their meaning depends on the resolution tables,
-    which `Resolve` computes separately for the clone (by URI, from `$id` / `$anchor` / paths); the statement then needs
-    "`Resolve` of the clone yields tables related to those of the original" (`Iso.TablesSim`), which is not proved.
-    `Iso.evalFuel_sim` itself covers references: see the example at the end of JSV/Proofs/IsoValid.lean. -/
+    PARTIAL: trees that contain `$ref` / `$dynamicRef` are not covered by THIS statement (arbitrary, unrelated tables).
+    Their meaning depends on the resolution tables, which `Resolve` computes separately for the clone (by URI, from
+    `$id` / `$anchor` / paths); for them see `clone_validates_same` below: `Resolve` of the clone yields tables related
+    to those of the original (`Go.RIso.resolve_rel`), and then `Iso.evalFuel_sim` applies. -/
 theorem clone_validates_same_partial (B d : Nat) (st : Store) (root c : NodeId) (st' : Store)
     (hg : Go.Good B st d root) (hfree : Iso.refFree st d root = true)
     (h : Go.clone st root = .ok (c, st')) (hB : st'.size ≤ B)
@@ -219,6 +227,240 @@ theorem clone_validate_same_partial (B d : Nat) (root c : NodeId) (env₁ env₂
   have h1 : Go.Sim B env₁.st env₂.st d root c := Go.cloneFuel_sim B env₁.st _ d (Go.Ext.refl _) hg h hB
   exact Iso.validate_iso env₁ env₂ hwf₁ hwf₂ hst₁ hst₂ hE fuel .nil (fun _ hx => nomatch hx) (fun _ hx => nomatch hx)
     ⟨d, hfree, h1⟩ j hj
+
+/-! ## the clone keeps the validation behaviour (trees WITH references: both sides resolved) -/
+
+/-- `clone_resolves_same`: **Resolve commutes with CloneSchemas** (self-contained resolution: no Loader, or a Loader
+    that hands out no document — `Go.RIso.NoDocs`).  If `Resolve` of the original `root` (in the store before cloning,
+    `st`) returns normally, and the clone `c` is accepted by checkStructure in the store after cloning, then `Resolve` of
+    the clone — same options, same base URI, same fuel — returns normally too, with the same draft and Loader log, and
+    there is a one-to-one relation `R` between the schemas of the two trees such that `R root c`, `R`-related schemas are
+    shallow copies of each other with `R`-related members (`Go.NodeRel`), and the two `Resolved` are `R`-related
+    (`Go.RIso.ResolvedRel`: related `$ref` / `$dynamicRef` targets, the same dynamic anchor names, related base
+    resources, related anchor tables with the same names and kinds, the same base URIs and paths).
+    Proof: `Go.RIso.resolve_rel` (JSV/Proofs/ResIso*.lean), a simulation of the whole resolver — checkStructure,
+    checkLocal, resolveURIs, Schema.all, resolveRef with its JSON-pointer walk, resolveRefs — along a renaming of schema
+    node ids; `R` pairs the schemas checkStructure registers at the same position (`Go.RIso.PairR`).
+    `B ≤ 10^9`: the model's nil `*Schema` inside a field is the id 10^9, which must not be a node. -/
+theorem clone_resolves_same (B d : Nat) (st : Store) (root c : NodeId) (st' : Store)
+    (hg : Go.Good B st d root) (h : Go.clone st root = .ok (c, st')) (hB : st'.size ≤ B) (hBn : B ≤ 1000000000)
+    (env : Go.Env) (hnd : Go.RIso.NoDocs env) (fuel : Nat) (base : String) (rs : Go.Resolved)
+    (h₁ : Go.resolve { env with st := st } fuel root base = .ok rs)
+    (f₂ : Nat) (fresh₂ : List (NodeId × Go.Info)) (hcs₂ : Go.checkStructure st' f₂ [(c, "")] [] = .ok fresh₂) :
+    ∃ (R : NodeId → NodeId → Prop) (rs' : Go.Resolved),
+      Go.resolve { env with st := st' } fuel c base = .ok rs' ∧ Go.RIso.BiU R ∧ R root c ∧
+      (∀ a b, R a b → Go.OptRel (Go.NodeRel R) (st.get? a) (st'.get? b)) ∧ Go.RIso.ResolvedRel R rs rs' := by
+  have hext := Go.cloneFuel_ext _ h
+  have hs : st.size ≤ B := Nat.le_trans hext.1 hB
+  have hsim : Go.Sim B st st' d root c := Go.cloneFuel_sim B st _ d (Go.Ext.refl st) hg h hB
+  obtain ⟨R, rs', h₂, hbiu, hroot, -, hnode, hres⟩ :=
+    Go.RIso.resolve_trees (env₁ := { env with st := st }) (env₂ := { env with st := st' })
+      (Go.RIso.cloneS_treeSim hs hB) rfl rfl rfl hnd
+      (Go.get?_eq_none_iff.2 (Nat.le_trans hs hBn)) (Go.get?_eq_none_iff.2 (Nat.le_trans hB hBn))
+      (r₁ := root) (r₂ := c) ⟨d, hsim⟩ fuel base h₁ hcs₂
+  exact ⟨R, rs', h₂, hbiu, hroot, hnode, hres⟩
+
+/-- `clone_validates_same_resolved`: the original and the clone, EACH RESOLVED ON ITS OWN — the original in the store
+    before cloning, the clone in the store after, same options (self-contained: `NoDocs`), same base URI —, have the same
+    draft and Loader log and give every instance, with every amount of fuel, the same Spec result (undefined / invalid /
+    valid with the same evaluated properties and items), whatever `$ref` / `$dynamicRef` / `$id` / `$anchor` /
+    `$dynamicAnchor` the tree contains.  (`Go.RIso.specOf st rs reMatch` is the Spec environment read off the store and
+    the tables of the `Resolved`, `Refine.specEnvOf` of the evaluator's environment.)
+    Also for the original resolved again in the store after cloning (`root` in `st'`): the original is untouched. -/
+theorem clone_validates_same_resolved (B d : Nat) (st : Store) (root c : NodeId) (st' : Store)
+    (hg : Go.Good B st d root) (h : Go.clone st root = .ok (c, st')) (hB : st'.size ≤ B) (hBn : B ≤ 1000000000)
+    (env : Go.Env) (hnd : Go.RIso.NoDocs env) (fuel : Nat) (base : String) (rs rs' : Go.Resolved)
+    (h₁ : Go.resolve { env with st := st } fuel root base = .ok rs)
+    (h₂ : Go.resolve { env with st := st' } fuel c base = .ok rs') :
+    rs.draft = rs'.draft ∧ rs.log = rs'.log ∧
+      ∀ (reMatch : String → String → Bool) (vfuel : Nat) (j : Json),
+        Spec.evalFuel (Go.RIso.specOf st' rs' reMatch) vfuel [] c j =
+          Spec.evalFuel (Go.RIso.specOf st rs reMatch) vfuel [] root j := by
+  have hext := Go.cloneFuel_ext _ h
+  have hs : st.size ≤ B := Nat.le_trans hext.1 hB
+  have hsim : Go.Sim B st st' d root c := Go.cloneFuel_sim B st _ d (Go.Ext.refl st) hg h hB
+  obtain ⟨e1, e2, e3⟩ := Go.RIso.trees_validate_same (env₁ := { env with st := st }) (env₂ := { env with st := st' })
+    (Go.RIso.cloneS_treeSim hs hB) rfl rfl rfl hnd
+    (Go.get?_eq_none_iff.2 (Nat.le_trans hs hBn)) (Go.get?_eq_none_iff.2 (Nat.le_trans hB hBn))
+    (r₁ := root) (r₂ := c) ⟨d, hsim⟩ fuel base h₁ h₂
+  exact ⟨e1, e2, fun reMatch vfuel j => (e3 reMatch vfuel j).symm⟩
+
+/-- the frame: the original resolved in the store AFTER cloning means what it meant before -/
+theorem clone_original_resolves_same (B d : Nat) (st : Store) (root c : NodeId) (st' : Store)
+    (hg : Go.Good B st d root) (h : Go.clone st root = .ok (c, st')) (hB : st'.size ≤ B) (hBn : B ≤ 1000000000)
+    (env : Go.Env) (hnd : Go.RIso.NoDocs env) (fuel : Nat) (base : String) (rs rs' : Go.Resolved)
+    (h₁ : Go.resolve { env with st := st } fuel root base = .ok rs)
+    (h₂ : Go.resolve { env with st := st' } fuel root base = .ok rs') :
+    rs.draft = rs'.draft ∧ rs.log = rs'.log ∧
+      ∀ (reMatch : String → String → Bool) (vfuel : Nat) (j : Json),
+        Spec.evalFuel (Go.RIso.specOf st' rs' reMatch) vfuel [] root j =
+          Spec.evalFuel (Go.RIso.specOf st rs reMatch) vfuel [] root j := by
+  have hext := Go.cloneFuel_ext _ h
+  have hs : st.size ≤ B := Nat.le_trans hext.1 hB
+  have hsim : Go.Sim B st st' d root root := Go.Sim.of_good hext d root hg
+  obtain ⟨e1, e2, e3⟩ := Go.RIso.trees_validate_same (env₁ := { env with st := st }) (env₂ := { env with st := st' })
+    (Go.RIso.cloneS_treeSim hs hB) rfl rfl rfl hnd
+    (Go.get?_eq_none_iff.2 (Nat.le_trans hs hBn)) (Go.get?_eq_none_iff.2 (Nat.le_trans hB hBn))
+    (r₁ := root) (r₂ := root) ⟨d, hsim⟩ fuel base h₁ h₂
+  exact ⟨e1, e2, fun reMatch vfuel j => (e3 reMatch vfuel j).symm⟩
+
+/-- the clone of a tree is a tree: if checkStructure accepts `root`, it accepts the clone of `root` (with some amount
+    of fuel), and every schema it registers for the clone is a new node.  (`CloneSchemas` allocates one fresh node per
+    visit, so the clone of a DAG is a tree too; the converse fails — see `clone_of_dag_resolves` below.) -/
+theorem clone_is_tree (st : Store) (root c : NodeId) (st' : Store) (f : Nat) (fresh : List (NodeId × Go.Info))
+    (hcs : Go.checkStructure st f [(root, "")] [] = .ok fresh) (h : Go.clone st root = .ok (c, st')) :
+    ∃ f' fresh', Go.checkStructure st' f' [(c, "")] [] = .ok fresh' ∧
+      ∀ k, k ∈ fresh'.map (·.1) → st.size ≤ k ∧ k < st'.size :=
+  Go.RIso.clone_checkStructure st root c st' "" f fresh hcs h
+
+/-- **`clone_validates_same`** (C20, validation behaviour, no carve-out on references).  Let `Resolve` of `root` return
+    normally (self-contained resolution — no Loader, or a Loader that hands out no document, `Go.RIso.NoDocs`; the store
+    leaves room for the copies below the model's nil id 10^9).  Then `root.CloneSchemas()` succeeds, `Resolve` of the clone
+    — same options, same base URI — returns normally as well, with the same draft and the same Loader log, and every
+    instance gets from the clone, with every amount of fuel, exactly the Spec result it gets from the original
+    (undefined / invalid / valid with the same evaluated properties and items): whatever `$ref`, `$dynamicRef`, `$id`,
+    `$anchor`, `$dynamicAnchor`, `$defs` the tree contains.
+    Proof: the clone is a tree (`clone_is_tree`), it is a copy of the original node by node (`Go.cloneFuel_sim`),
+    Resolve commutes with the renaming of node ids between two such trees (`Go.RIso.resolve_rel`, `resolve_trees`), and
+    validity is invariant under a renaming of node ids along related tables (`Iso.evalFuel_sim`). -/
+theorem clone_validates_same (st : Store) (root : NodeId) (env : Go.Env) (hnd : Go.RIso.NoDocs env)
+    (hroom : st.size + Go.cloneCount st (st.size + 1) root ≤ 1000000000)
+    (fuel : Nat) (base : String) (rs : Go.Resolved)
+    (h₁ : Go.resolve { env with st := st } fuel root base = .ok rs) :
+    ∃ c st' rs', Go.clone st root = .ok (c, st') ∧
+      Go.resolve { env with st := st' } fuel c base = .ok rs' ∧ rs.draft = rs'.draft ∧ rs.log = rs'.log ∧
+      ∀ (reMatch : String → String → Bool) (vfuel : Nat) (j : Json),
+        Spec.evalFuel (Go.RIso.specOf st' rs' reMatch) vfuel [] c j =
+          Spec.evalFuel (Go.RIso.specOf st rs reMatch) vfuel [] root j := by
+  obtain ⟨fresh, hcs⟩ := Go.RIso.resolve_ok_cs { env with st := st } fuel root base rs h₁
+  have hg : ∀ B, Go.Good B st st.size root := fun B => Go.good_of_checkStructure B st _ root fresh hcs
+  obtain ⟨c, st', h, hsz, -⟩ := clone_total (st.size + Go.cloneCount st (st.size + 1) root) st.size st root
+    (hg _) (Nat.le_succ _) (Nat.le_refl _)
+  obtain ⟨f', fresh', hcs', -⟩ := clone_is_tree st root c st' _ fresh hcs h
+  have hB : st'.size ≤ st'.size := Nat.le_refl _
+  have hBn : st'.size ≤ 1000000000 := by rw [hsz]; exact hroom
+  obtain ⟨R, rs', h₂, -, -, -, -⟩ := clone_resolves_same st'.size st.size st root c st' (hg _) h hB hBn env hnd fuel base
+    rs h₁ f' fresh' hcs'
+  obtain ⟨e1, e2, e3⟩ := clone_validates_same_resolved st'.size st.size st root c st' (hg _) h hB hBn env hnd fuel base
+    rs rs' h₁ h₂
+  exact ⟨c, st', rs', h, h₂, e1, e2, e3⟩
+
+/-- `clone_validates_same_docs`: the same WITH documents fetched through the Loader.  The Loader universe is shared:
+    `L` is a set of schemas (ids, nil ones included) that contains the root of every document the Loader hands out, is
+    closed under the schema-valued fields, lies in the store before cloning (or is nil: `≥ 10^9`), and is disjoint from
+    the tree of `root`.  If `Resolve` of `root` returns normally — references into Loader documents, and from Loader
+    documents back into the root document, included — then `root.CloneSchemas()` succeeds, `Resolve` of the clone against
+    the same Loader returns normally with the same draft and the same Loader log (the same URIs fetched in the same
+    order), and every instance gets the same Spec result from the clone as from the original. -/
+theorem clone_validates_same_docs (st : Store) (root : NodeId) (env : Go.Env) (L : NodeId → Prop)
+    (hLst : ∀ a, L a → a < st.size ∨ 1000000000 ≤ a)
+    (hLcl : ∀ a n, L a → st.get? a = some n → ∀ f, f ∈ n.childFields → ∀ x, x ∈ f.ids → L x)
+    (hLroots : ∀ t key l, env.loader = some t → Json.lookup key t = some (.doc l) → L l)
+    (hLdis : ∀ fresh, Go.checkStructure st (st.size + 2) [(root, "")] [] = .ok fresh → ∀ a, L a → a ∉ fresh.map (·.1))
+    (hroom : st.size + Go.cloneCount st (st.size + 1) root ≤ 1000000000)
+    (fuel : Nat) (base : String) (rs : Go.Resolved)
+    (h₁ : Go.resolve { env with st := st } fuel root base = .ok rs) :
+    ∃ c st' rs', Go.clone st root = .ok (c, st') ∧
+      Go.resolve { env with st := st' } fuel c base = .ok rs' ∧ rs.draft = rs'.draft ∧ rs.log = rs'.log ∧
+      ∀ (reMatch : String → String → Bool) (vfuel : Nat) (j : Json),
+        Spec.evalFuel (Go.RIso.specOf st' rs' reMatch) vfuel [] c j =
+          Spec.evalFuel (Go.RIso.specOf st rs reMatch) vfuel [] root j := by
+  obtain ⟨fresh, hcs⟩ := Go.RIso.resolve_ok_cs { env with st := st } fuel root base rs h₁
+  have hg : ∀ B, Go.Good B st st.size root := fun B => Go.good_of_checkStructure B st _ root fresh hcs
+  obtain ⟨c, st', h, hsz, -⟩ := clone_total (st.size + Go.cloneCount st (st.size + 1) root) st.size st root
+    (hg _) (Nat.le_succ _) (Nat.le_refl _)
+  obtain ⟨f', fresh', hcs', hiv⟩ := clone_is_tree st root c st' _ fresh hcs h
+  have hBn : st'.size ≤ 1000000000 := by rw [hsz]; exact hroom
+  have hext := Go.cloneFuel_ext _ h
+  have hs : st.size ≤ st'.size := hext.1
+  have hsim : Go.Sim st'.size st st' st.size root c :=
+    Go.cloneFuel_sim st'.size st _ st.size (Go.Ext.refl st) (hg _) h (Nat.le_refl _)
+  have hL : Go.RIso.DocsOK { env with st := st } { env with st := st' } L := by
+    refine ⟨?_, hLcl, hLroots⟩
+    intro a ha
+    show st.get? a = st'.get? a
+    rcases hLst a ha with hlt | hge
+    · exact (hext.2 a hlt).symm
+    · rw [Go.get?_eq_none_iff.2 (Nat.le_trans (Nat.le_trans hs hBn) hge),
+        Go.get?_eq_none_iff.2 (Nat.le_trans hBn hge)]
+  obtain ⟨rs', h₂, e1, e2, e3⟩ := Go.RIso.resolve_trees_docs (env₁ := { env with st := st })
+    (env₂ := { env with st := st' }) (Go.RIso.cloneS_treeSim (B := st'.size) hs (Nat.le_refl _)) rfl rfl rfl
+    (Go.get?_eq_none_iff.2 (Nat.le_trans hs hBn)) (Go.get?_eq_none_iff.2 hBn) (r₁ := root) (r₂ := c) ⟨_, hsim⟩ hL
+    fuel base h₁ hcs' hLdis
+    (fun a ha hm => by
+      have := hiv a hm
+      rcases hLst a ha with hlt | hge
+      · exact absurd hlt (Nat.not_lt.2 this.1)
+      · exact absurd (Nat.lt_of_lt_of_le this.2 hBn) (Nat.not_lt.2 hge))
+  exact ⟨c, st', rs', h, h₂, e1, e2, fun reMatch vfuel j => (e3 reMatch vfuel j).symm⟩
+
+/-- `clone_validate_same`: … and for the evaluator itself (`Go.validateFuel`, through `C01.validate_refines_spec`), trees
+    with references included.  The original is resolved in the store before cloning (`rs`), the clone in the store after
+    (`rs'`).  `v₁`, `v₂`: the environments `Validate` runs on — the drafts of `rs` / `rs'`; info tables and stores that
+    agree with those of `rs` / `rs'` and with `st` / `st'` on the schemas `rs` / `rs'` know (elsewhere arbitrary: the
+    evaluation never gets there — so `v₂` may also carry records for the original, which lives in `st'` too); the same
+    regexp matcher; well formed as `Resolve` leaves them (`EnvWF`, `StoreWF`).  ONE Spec result governs the run on `root`
+    and the run on the clone `c`: wherever the Spec decides, both return an error or both succeed with annotations
+    denoting the same evaluated sets. -/
+theorem clone_validate_same (B d : Nat) (st : Store) (root c : NodeId) (st' : Store)
+    (hg : Go.Good B st d root) (h : Go.clone st root = .ok (c, st')) (hB : st'.size ≤ B) (hBn : B ≤ 1000000000)
+    (env : Go.Env) (hnd : Go.RIso.NoDocs env) (fuel : Nat) (base : String) (rs rs' : Go.Resolved)
+    (h₁ : Go.resolve { env with st := st } fuel root base = .ok rs)
+    (h₂ : Go.resolve { env with st := st' } fuel c base = .ok rs') (v₁ v₂ : Go.VEnv)
+    (hi₁ : ∀ a, (Go.lookupNat a rs.infos).isSome = true → v₁.info? a = Go.lookupNat a rs.infos)
+    (hi₂ : ∀ b, (Go.lookupNat b rs'.infos).isSome = true → v₂.info? b = Go.lookupNat b rs'.infos)
+    (hd₁ : v₁.draft = rs.draft) (hd₂ : v₂.draft = rs'.draft)
+    (hs₁ : ∀ a, (Go.lookupNat a rs.infos).isSome = true → v₁.st.get? a = st.get? a)
+    (hs₂ : ∀ b, (Go.lookupNat b rs'.infos).isSome = true → v₂.st.get? b = st'.get? b)
+    (hrm : v₁.reMatch = v₂.reMatch) (hwf₁ : Refine.EnvWF v₁) (hwf₂ : Refine.EnvWF v₂)
+    (hst₁ : Refine.StoreWF v₁.st) (hst₂ : Refine.StoreWF v₂.st) (vfuel : Nat) (j : Json) (hj : Json.WF j = true) :
+    Refine.Rel j (Spec.evalFuel (Refine.specEnvOf v₁) vfuel [] root j)
+        (Go.validateFuel v₁ vfuel [] (GoVal.ofJson j) root) ∧
+      Refine.Rel j (Spec.evalFuel (Refine.specEnvOf v₁) vfuel [] root j)
+        (Go.validateFuel v₂ vfuel [] (GoVal.ofJson j) c) := by
+  have hext := Go.cloneFuel_ext _ h
+  have hs : st.size ≤ B := Nat.le_trans hext.1 hB
+  have hsim : Go.Sim B st st' d root c := Go.cloneFuel_sim B st _ d (Go.Ext.refl st) hg h hB
+  exact Go.RIso.trees_validate_iso (env₁ := { env with st := st }) (env₂ := { env with st := st' })
+    (Go.RIso.cloneS_treeSim hs hB) rfl rfl rfl hnd
+    (Go.get?_eq_none_iff.2 (Nat.le_trans hs hBn)) (Go.get?_eq_none_iff.2 (Nat.le_trans hB hBn))
+    (r₁ := root) (r₂ := c) ⟨d, hsim⟩ fuel base h₁ h₂ v₁ v₂ hi₁ hi₂ hd₁ hd₂ hs₁ hs₂ hrm hwf₁ hwf₂ hst₁ hst₂ vfuel j hj
+
+/-- `clone_resolves_iff`: for a TREE (checkStructure accepts `root`) `Resolve` of the original and `Resolve` of the clone
+    — same options, base URI, fuel; self-contained resolution — fail together or succeed together.  (For a DAG they do
+    not: the original is refused, the clone resolves; example `clone_of_dag_resolves` below.) -/
+theorem clone_resolves_iff (st : Store) (root : NodeId) (env : Go.Env) (hnd : Go.RIso.NoDocs env)
+    (hroom : st.size + Go.cloneCount st (st.size + 1) root ≤ 1000000000) (fuel : Nat) (base : String)
+    (f : Nat) (fresh : List (NodeId × Go.Info)) (hcs : Go.checkStructure st f [(root, "")] [] = .ok fresh) :
+    ∃ c st', Go.clone st root = .ok (c, st') ∧
+      (Go.resolve { env with st := st } fuel root base).isOk = (Go.resolve { env with st := st' } fuel c base).isOk := by
+  have hg : ∀ B, Go.Good B st st.size root := fun B => Go.good_of_checkStructure B st _ root fresh hcs
+  obtain ⟨c, st', h, hsz, -⟩ := clone_total (st.size + Go.cloneCount st (st.size + 1) root) st.size st root
+    (hg _) (Nat.le_succ _) (Nat.le_refl _)
+  obtain ⟨f', fresh', hcs', -⟩ := clone_is_tree st root c st' _ fresh hcs h
+  have hBn : st'.size ≤ 1000000000 := by rw [hsz]; exact hroom
+  have hext := Go.cloneFuel_ext _ h
+  have hs : st.size ≤ st'.size := hext.1
+  have hsim : Go.Sim st'.size st st' st.size root c :=
+    Go.cloneFuel_sim st'.size st _ st.size (Go.Ext.refl st) (hg _) h (Nat.le_refl _)
+  have hTS := Go.RIso.cloneS_treeSim (B := st'.size) hs (Nat.le_refl _)
+  have hn₁ : Store.get? st 1000000000 = none := Go.get?_eq_none_iff.2 (Nat.le_trans hs hBn)
+  have hn₂ : Store.get? st' 1000000000 = none := Go.get?_eq_none_iff.2 hBn
+  refine ⟨c, st', h, ?_⟩
+  cases h₁ : Go.resolve { env with st := st } fuel root base with
+  | ok rs =>
+    obtain ⟨R, rs', h₂, -⟩ := Go.RIso.resolve_trees (env₁ := { env with st := st }) (env₂ := { env with st := st' })
+      hTS rfl rfl rfl hnd hn₁ hn₂ (r₁ := root) (r₂ := c) ⟨_, hsim⟩ fuel base h₁ hcs'
+    rw [h₂]
+    rfl
+  | fuel | panic | err =>
+    cases h₂ : Go.resolve { env with st := st' } fuel c base with
+    | ok rs' =>
+      obtain ⟨R, rs, h₁', -⟩ := Go.RIso.resolve_trees (env₁ := { env with st := st' }) (env₂ := { env with st := st })
+        hTS.flip rfl rfl rfl hnd hn₂ hn₁ (r₁ := c) (r₂ := root) ⟨_, hsim⟩ fuel base h₂ hcs
+      rw [h₁] at h₁'
+      cases h₁'
+    | fuel | panic | err => rfl
 
 /-- the 23 fields cloneStep rewrites are exactly the Schema-typed fields of the Go struct: every field
     whose Go type mentions `Schema` has type `*Schema`, `[]*Schema` or `map[string]*Schema`; there are 23
@@ -336,6 +578,218 @@ def exSpecEnv (st : Store) : Spec.Env :=
 example : Spec.valid (exSpecEnv exStore) 3 0 (.str "x") = some true := by decide
 example : Spec.valid (exSpecEnv exStore) 3 0 (.str "") = some false := by decide
 example : Spec.valid (exSpecEnv exStore) 3 0 (.obj []) = some false := by decide
+
+/-! ### `clone_validates_same` is not vacuous: a tree WITH `$ref` (by pointer and by `$anchor`), `$dynamicRef`,
+  `$dynamicAnchor`, `$id` -/
+
+def exRefTree : Store := #[
+  { id := "http://a/root.json", type := "object", ref := "#/$defs/len", dynamicRef := "#d", allOf := some [4],
+    properties := some [("a", 1)], defs := some [("len", 2), ("pos", 3)], required := some ["a"] },   -- 0
+  { type := "string" },                                                                              -- 1
+  { minProperties := some 1, dynamicAnchor := "d" },                                                  -- 2
+  { anchor := "pos", maxProperties := some 2 },                                                       -- 3
+  { ref := "#pos" }]                                                                                  -- 4
+def exRefEnv : Go.Env := { st := exRefTree, reOk := fun _ => true, loader := none }
+
+theorem exRefEnv_noDocs : Go.RIso.NoDocs exRefEnv := fun _ _ _ h => nomatch h
+
+/-- what Resolve records for the original: (schema, `$ref` target, `$dynamicRef` target), and the anchors of the root
+    resource -/
+example : ((Go.resolve exRefEnv 1 0 "").bind fun rs => .ok (rs.infos.map fun (e : NodeId × Go.Info) =>
+      (e.1, e.2.resolvedRef, e.2.resolvedDynamicRef))) =
+    .ok [(0, some 2, some 2), (2, none, none), (3, none, none), (4, some 3, none), (1, none, none)] := by
+  decide +kernel
+example : ((Go.resolve exRefEnv 1 0 "").bind fun rs => .ok (((Go.lookupNat 0 rs.infos).map Go.Info.anchors).getD [] |>.map
+      fun (a : String × Go.AnchorInfo) => (a.1, a.2.schema, a.2.dynamic))) =
+    .ok [("d", 2, true), ("pos", 3, false)] := by
+  decide +kernel
+
+/-- … and for the clone (root 9, copies 5 … 8), resolved on its own: the same tables up to the renaming -/
+example : (match Go.clone exRefTree 0 with
+    | .ok (c, st') => (Go.resolve { exRefEnv with st := st' } 1 c "").bind fun rs =>
+        .ok (rs.infos.map fun (e : NodeId × Go.Info) => (e.1, e.2.resolvedRef, e.2.resolvedDynamicRef))
+    | _ => .err) =
+    .ok [(9, some 5, some 5), (5, none, none), (6, none, none), (7, some 6, none), (8, none, none)] := by
+  decide +kernel
+example : (match Go.clone exRefTree 0 with
+    | .ok (c, st') => (Go.resolve { exRefEnv with st := st' } 1 c "").bind fun rs =>
+        .ok (((Go.lookupNat c rs.infos).map Go.Info.anchors).getD [] |>.map
+          fun (a : String × Go.AnchorInfo) => (a.1, a.2.schema, a.2.dynamic))
+    | _ => .err) =
+    .ok [("d", 5, true), ("pos", 6, false)] := by
+  decide +kernel
+
+/-- `clone_validates_same` applied: the clone resolves, and validates every instance like the original -/
+example : ∃ c st' rs rs', Go.clone exRefTree 0 = .ok (c, st') ∧ Go.resolve exRefEnv 1 0 "" = .ok rs ∧
+    Go.resolve { exRefEnv with st := st' } 1 c "" = .ok rs' ∧
+    ∀ (reMatch : String → String → Bool) (vfuel : Nat) (j : Json),
+      Spec.evalFuel (Go.RIso.specOf st' rs' reMatch) vfuel [] c j =
+        Spec.evalFuel (Go.RIso.specOf exRefTree rs reMatch) vfuel [] 0 j := by
+  have hok : (Go.resolve exRefEnv 1 0 "").isOk = true := by decide +kernel
+  cases hr : Go.resolve exRefEnv 1 0 "" with
+  | ok rs =>
+    obtain ⟨c, st', rs', h, h₂, -, -, e⟩ :=
+      clone_validates_same exRefTree 0 exRefEnv exRefEnv_noDocs (by decide) 1 "" rs hr
+    exact ⟨c, st', rs, rs', h, rfl, h₂, e⟩
+  | fuel => rw [hr] at hok; cases hok
+  | panic => rw [hr] at hok; cases hok
+  | err => rw [hr] at hok; cases hok
+
+/-- … and these results are defined, use the references, and are not all the same: `{"a":"x"}` is valid; three
+    properties violate `maxProperties` behind `allOf → $ref: "#pos"`; a number under "a" violates `properties` -/
+example : (match Go.resolve exRefEnv 1 0 "" with
+    | .ok rs =>
+      [Spec.valid (Go.RIso.specOf exRefTree rs fun _ _ => false) 4 0 (.obj [("a", .str "x")]),
+       Spec.valid (Go.RIso.specOf exRefTree rs fun _ _ => false) 4 0 (.obj [("a", .str "x"), ("b", .null), ("c", .null)]),
+       Spec.valid (Go.RIso.specOf exRefTree rs fun _ _ => false) 4 0 (.obj [("a", .num 1)])]
+    | _ => []) = [some true, some false, some false] := by
+  decide +kernel
+
+/-- `clone_validate_same` applied: `v₁` = what `Resolve` of the original leaves; `v₂` = the store after cloning with the
+    tables of the clone's `Resolved` followed by those of the original's (so that every object of the store has a
+    record, `EnvWF`).  The well-formedness checks are evaluated. -/
+def exV₁ (rs : Go.Resolved) : Go.VEnv := Go.RIso.venvOf exRefTree rs (fun _ _ => false) (fun _ => 0)
+def exV₂ (st' : Store) (rs rs' : Go.Resolved) : Go.VEnv :=
+  { st := st', draft := rs'.draft, infos := rs'.infos ++ rs.infos, reMatch := fun _ _ => false, hash := fun _ => 0 }
+
+def exRefChecks : Bool :=
+  match Go.clone exRefTree 0 with
+  | .ok (c, st') =>
+    match Go.resolve exRefEnv 1 0 "", Go.resolve { exRefEnv with st := st' } 1 c "" with
+    | .ok rs, .ok rs' =>
+      Refine.infoTotalB (exV₁ rs) && Refine.baseTotalB (exV₁ rs) && Refine.infoTotalB (exV₂ st' rs rs') &&
+        Refine.baseTotalB (exV₂ st' rs rs') && Refine.storeWFB exRefTree && Refine.storeWFB st' &&
+        decide (st'.size ≤ 1000000000)
+    | _, _ => false
+  | _ => false
+
+theorem exRefChecks_ok : exRefChecks = true := by decide +kernel
+
+example (vfuel : Nat) (j : Json) (hj : Json.WF j = true) :
+    ∃ c st' rs rs', Go.clone exRefTree 0 = .ok (c, st') ∧ Go.resolve exRefEnv 1 0 "" = .ok rs ∧
+      Go.resolve { exRefEnv with st := st' } 1 c "" = .ok rs' ∧
+      Refine.Rel j (Spec.evalFuel (Refine.specEnvOf (exV₁ rs)) vfuel [] 0 j)
+        (Go.validateFuel (exV₁ rs) vfuel [] (GoVal.ofJson j) 0) ∧
+      Refine.Rel j (Spec.evalFuel (Refine.specEnvOf (exV₁ rs)) vfuel [] 0 j)
+        (Go.validateFuel (exV₂ st' rs rs') vfuel [] (GoVal.ofJson j) c) := by
+  have hck := exRefChecks_ok
+  unfold exRefChecks at hck
+  cases hc : Go.clone exRefTree 0 with
+  | ok r =>
+    obtain ⟨c, st'⟩ := r
+    rw [hc] at hck
+    dsimp only at hck
+    cases hr : Go.resolve exRefEnv 1 0 "" with
+    | ok rs =>
+      cases hr' : Go.resolve { exRefEnv with st := st' } 1 c "" with
+      | ok rs' =>
+        rw [hr, hr'] at hck
+        simp only [Bool.and_eq_true, decide_eq_true_eq] at hck
+        obtain ⟨⟨⟨⟨⟨⟨k1, k2⟩, k3⟩, k4⟩, k5⟩, k6⟩, k7⟩ := hck
+        have hg : Go.Good st'.size exRefTree exRefTree.size 0 := by
+          have hcs : (Go.checkStructure exRefTree 7 [(0, "")] []).isOk = true := by decide
+          cases hcs' : Go.checkStructure exRefTree 7 [(0, "")] [] with
+          | ok fresh => exact Go.good_of_checkStructure _ exRefTree 7 0 fresh hcs'
+          | fuel => rw [hcs'] at hcs; cases hcs
+          | panic => rw [hcs'] at hcs; cases hcs
+          | err => rw [hcs'] at hcs; cases hcs
+        refine ⟨c, st', rs, rs', rfl, rfl, hr', ?_⟩
+        exact clone_validate_same st'.size exRefTree.size exRefTree 0 c st' hg hc (Nat.le_refl _) k7 exRefEnv
+          exRefEnv_noDocs 1 "" rs rs' hr hr' (exV₁ rs) (exV₂ st' rs rs') (fun _ _ => rfl)
+          (fun b hb => by
+            show Go.lookupNat b (rs'.infos ++ rs.infos) = Go.lookupNat b rs'.infos
+            rw [Go.RPerm.lookupNat_append]
+            cases e : Go.lookupNat b rs'.infos with
+            | none => rw [e] at hb; cases hb
+            | some i => rfl)
+          rfl rfl (fun _ _ => rfl) (fun _ _ => rfl) rfl
+          (Refine.EnvWF_of_checks _ k1 k2 (fun _ _ _ => rfl)) (Refine.EnvWF_of_checks _ k3 k4 (fun _ _ _ => rfl))
+          (Refine.StoreWF_of_check _ k5) (Refine.StoreWF_of_check _ k6) vfuel j hj
+      | fuel => rw [hr, hr'] at hck; cases hck
+      | panic => rw [hr, hr'] at hck; cases hck
+      | err => rw [hr, hr'] at hck; cases hck
+    | fuel => rw [hr] at hck; cases hck
+    | panic => rw [hr] at hck; cases hck
+    | err => rw [hr] at hck; cases hck
+  | fuel => rw [hc] at hck; cases hck
+  | panic => rw [hc] at hck; cases hck
+  | err => rw [hc] at hck; cases hck
+
+/-! ### `clone_validates_same_docs` is not vacuous: a root document with two references INTO a Loader document (by
+  pointer and by `$anchor`); the Loader is called once on either side -/
+
+def exDocStore : Store := #[
+  { id := "http://a/root.json", allOf := some [1], properties := some [("p", 2)] },   -- 0
+  { ref := "other.json#/$defs/x" },                                                    -- 1
+  { ref := "other.json#tag" },                                                         -- 2
+  { defs := some [("x", 4), ("y", 5)] },                                               -- 3: http://a/other.json
+  { type := "string" },                                                                -- 4
+  { anchor := "tag", minLength := some 2 }]                                            -- 5
+def exDocEnv : Go.Env :=
+  { st := exDocStore, reOk := fun _ => true, loader := some [("http://a/other.json", .doc 3)] }
+/-- the schemas of the Loader universe -/
+def exDocL (a : NodeId) : Prop := a ∈ [3, 4, 5]
+
+example : ((Go.resolve exDocEnv 2 0 "").bind fun rs => .ok (rs.log, rs.infos.map fun (e : NodeId × Go.Info) =>
+      (e.1, e.2.resolvedRef))) =
+    .ok (["http://a/other.json"], [(0, none), (1, some 4), (2, some 5), (3, none), (4, none), (5, none)]) := by
+  decide +kernel
+
+example : ∃ c st' rs rs', Go.clone exDocStore 0 = .ok (c, st') ∧ Go.resolve exDocEnv 2 0 "" = .ok rs ∧
+    Go.resolve { exDocEnv with st := st' } 2 c "" = .ok rs' ∧ rs.log = rs'.log ∧
+    ∀ (reMatch : String → String → Bool) (vfuel : Nat) (j : Json),
+      Spec.evalFuel (Go.RIso.specOf st' rs' reMatch) vfuel [] c j =
+        Spec.evalFuel (Go.RIso.specOf exDocStore rs reMatch) vfuel [] 0 j := by
+  have hok : (Go.resolve exDocEnv 2 0 "").isOk = true := by decide +kernel
+  have hfresh : (match Go.checkStructure exDocStore (exDocStore.size + 2) [(0, "")] [] with
+      | .ok fresh => fresh.map (·.1) == [0, 1, 2]
+      | _ => false) = true := by decide
+  cases hr : Go.resolve exDocEnv 2 0 "" with
+  | ok rs =>
+    obtain ⟨c, st', rs', h, h₂, -, e2, e⟩ := clone_validates_same_docs exDocStore 0 exDocEnv exDocL
+      (fun a ha => Or.inl (by
+        have : ∀ x ∈ [3, 4, 5], x < exDocStore.size := by decide
+        exact this a ha))
+      (fun a n ha hn f hf x hx => by
+        have hcl : ∀ a ∈ [3, 4, 5], ∀ n, exDocStore.get? a = some n → ∀ f ∈ n.childFields, ∀ x ∈ f.ids, x ∈ [3, 4, 5] := by
+          intro a ha
+          simp only [List.mem_cons, List.not_mem_nil, or_false] at ha
+          rcases ha with rfl | rfl | rfl <;> intro n hn <;> cases hn <;> decide
+        exact hcl a ha n hn f hf x hx)
+      (fun t key l ht hk => by
+        cases ht
+        simp only [Json.lookup_cons, Json.lookup_nil] at hk
+        split at hk
+        · cases hk; show 3 ∈ [3, 4, 5]; decide
+        · cases hk)
+      (fun fresh hf a ha hm => by
+        rw [hf] at hfresh
+        have he : fresh.map (·.1) = [0, 1, 2] := by simpa using hfresh
+        rw [he] at hm
+        have : ∀ x ∈ [3, 4, 5], x ∉ [0, 1, 2] := by decide
+        exact this a ha hm)
+      (by decide) 2 "" rs hr
+    exact ⟨c, st', rs, rs', h, rfl, h₂, e2, e⟩
+  | fuel => rw [hr] at hok; cases hok
+  | panic => rw [hr] at hok; cases hok
+  | err => rw [hr] at hok; cases hok
+
+/-- … and the verdicts go through the Loader document: a string of length 2 is valid, a number is not -/
+example : (match Go.resolve exDocEnv 2 0 "" with
+    | .ok rs =>
+      [Spec.valid (Go.RIso.specOf exDocStore rs fun _ _ => false) 4 0 (.str "xy"),
+       Spec.valid (Go.RIso.specOf exDocStore rs fun _ _ => false) 4 0 (.num 1)]
+    | _ => []) = [some true, some false] := by
+  decide +kernel
+
+/-- `clone_of_dag_resolves`: the converse direction fails, and must: a DAG (schema 1 is shared) is refused by Resolve
+    ("do not form a tree"), its clone is a tree and resolves -/
+example : (Go.resolve { exRefEnv with st := #[{ allOf := some [1, 1] }, { type := "string" }] } 1 0 "").verdict =
+      some false ∧
+    (match Go.clone #[{ allOf := some [1, 1] }, { type := "string" }] 0 with
+      | .ok (c, st') => (Go.resolve { exRefEnv with st := st' } 1 c "").isOk
+      | _ => false) = true := by
+  constructor <;> decide +kernel
 
 /-- why `st'.size ≤ B` is assumed: a "nil" id that the clone's own allocations reach stops being nil.
     Here node 0 has `not := some 1` with 1 dangling (nil); the clone is allocated at id 1 and its `not`
